@@ -233,7 +233,7 @@ fn nat_laws(ctx: &mut Ctx, rng: &mut Rng) {
 
 fn main() {
     let mut ctx = Ctx::from_args("C17");
-    let n = ctx.budget(4000, 80000);
+    let n = ctx.budget(20000, 400000);
     for _ in 0..n {
         if let Some(mut rng) = ctx.random_case() {
             datetime_laws(&mut ctx, &mut rng);
